@@ -226,9 +226,9 @@ Section Corr.
         cbn [option_map] in S. inversion S as [S']. rewrite S'. cbn [option_map]; unfold lift_val; cbn [fst snd].
         rewrite <- (oprint_nonempty o' (struct_nums _ _ _ Eo)). reflexivity. }
     destruct (bytes_eqb writer (B "JSONWriteTimeProp")).
-    { destruct v as [[ | | | |t| | | | | | | | ]|]; reflexivity. }
+    { destruct v as [[ | | | |t| | | | | | | | ]|]; try reflexivity. destruct (time_writable t); reflexivity. }
     destruct (bytes_eqb writer (B "JSONWriteDurationProp")).
-    { destruct v as [[ | | | | |d| | | | | | | ]|]; try reflexivity. destruct (fmt_xsd_duration d); reflexivity. }
+    { destruct v as [[ | | | | |d| | | | | | | ]|]; try reflexivity; try (destruct (fmt_xsd_duration d); reflexivity). }
     destruct (bytes_eqb writer (B "JSONWriteIntProp")); [reflexivity|].
     destruct (bytes_eqb writer (B "JSONWriteFloatProp")); [reflexivity|].
     destruct (bytes_eqb writer (B "JSONWriteBoolProp")).
@@ -282,7 +282,7 @@ Section Corr.
       - destruct (t_struct t_run (B "PublicKey_MarshalJSON") (pubkey_fields id o' p)) as [o''|] eqn:Eo; [|discriminate].
         intros H. inversion H; subst. exact (struct_nums _ _ _ Eo). }
     destruct (bytes_eqb writer (B "JSONWriteTimeProp")).
-    { destruct v as [[ | | | |t0| | | | | | | | ]|]; try discriminate. intros H. inversion H. reflexivity. }
+    { destruct v as [[ | | | |t0| | | | | | | | ]|]; try discriminate. destruct (time_writable t0); intros H; inversion H; reflexivity. }
     destruct (bytes_eqb writer (B "JSONWriteDurationProp")).
     { destruct v as [[ | | | | |d| | | | | | | ]|]; try discriminate. destruct (fmt_xsd_duration d); [|discriminate]. intros H. inversion H. reflexivity. }
     destruct (bytes_eqb writer (B "JSONWriteIntProp")).
